@@ -740,6 +740,9 @@ func (idx *indexer) indexSince(txID uint64) error {
 				if acquiredMem == 0 {
 					return ErrWriteStalling
 				}
+				// the entries of this transaction are left for the next bulk: inserting them without having
+				// acquired their size makes the next flush release more than was acquired
+				indexableEntries -= txIndexedEntries
 				break
 			}
 			acquiredMem += size
